@@ -7,6 +7,8 @@ by each handler (increase / new range positive, decrease / existing range negati
 caller-limit comparisons (token max on the fee-included deposit, token min on the
 fee-excluded withdrawal) with the right side and before any transfer; the floor divisions
 and case split of the max-liquidity estimate with the price interval of each arm.
+Also decided: the two estimate formulas as terms (which bounds, which maximum, one truncation at the end) in each price case,
+whether they are helpers or written in place; every word write of the 256-bit product is guarded by exactly index < 4.
 Not decided: exactness, the one-unit loss bound, "largest L that fits"."""
 from analysis import cfg, atoms as A, preach, pino
 from analysis.ir import callee_path, AnchorMissing
